@@ -81,6 +81,7 @@ pub fn check_case(case: &Case, st: &mut Stats) -> Check {
     };
     let shared = SharedBuf::new(bytes.clone());
     let medium = Instrumented::new(shared.clone());
+    let flush_failures = medium.flush_failures.clone();
     let counts = medium.counts.clone();
     let mut pkg = match Package::open(medium) {
         Ok(p) => p,
@@ -213,6 +214,15 @@ pub fn check_case(case: &Case, st: &mut Stats) -> Check {
         }
     }
     let mode = case.close % 3;
+    // one session in eight meets a medium whose own flush() fails once: the
+    // session is still read-only, whatever closes it next must not write
+    if (case.close / 3) % 8 == 5 {
+        *flush_failures.borrow_mut() = 1;
+        let _ = pkg.flush();
+        *flush_failures.borrow_mut() = 0;
+        trace.push("flush() while the medium's flush fails".into());
+        st.class("medium-flush-failed-once");
+    }
     match mode {
         0 => {
             pkg.flush().map_err(|e| Fail::new(format!("{P} flush-failed"), format!("flush of an unmodified package failed: {e}")))?;
@@ -271,7 +281,7 @@ pub fn run(ctx: &Ctx) -> Report {
     let v = search(
         ctx,
         "session",
-        ctx.tier.pick(60_000, 600_000),
+        ctx.tier.pick(40_000, 400_000),
         || {
             let source = prop_oneof![
                 3 => seq::seq_case(W_PERSIST, 8).prop_map(Source::Library),
